@@ -53,3 +53,9 @@ size_t glue_mem_field_offset(int which) {
     case 2: return offsetof(wasmMemory, pages); default: return offsetof(wasmMemory, maxPages); }
 }
 int glue_big_endian(void) { return WASM_ENDIAN == WASM_BIG_ENDIAN; }
+#define STR_(x) #x
+#define STR(x) STR_(x)
+const char* glue_module_name(void) { return STR(MOD); }
+/* a shared memory owned by the embedder (for modules that import theirs) */
+wasmMemory* glue_shared_memory_new(unsigned minPages, unsigned maxPages) { return wasmMemoryAllocate(minPages, maxPages, true); }
+void glue_shared_memory_free(wasmMemory* m) { if (m) { wasmMemoryFree(m); free(m); } }
